@@ -34,6 +34,8 @@ class FramingServer:
         self.port = 49664
         self.request_wire = b""
         self.request_plain = b""
+        self.seq = 0
+        self.all_obs: list = []
 
     def feed(self, data: bytes) -> bytes:
         self.buf += data
@@ -68,20 +70,23 @@ class FramingServer:
         tr8 = pdu[tr_off : tr_off + 8]
         sig = pdu[tr_off + 8 : frag]
         ct = pdu[24:tr_off]
-        pt, used = provider.server_open(self.seal, 0, pdu[:24], ct, tr8, sig)
+        seq = self.seq
+        self.seq += 1
+        pt, used = provider.server_open(self.seal, seq, pdu[:24], ct, tr8, sig)
         self.request_wire, self.request_plain = pdu, pt
         self.obs = {"actualLen": actual, "fragLen": frag, "authLen": alen, "trailerOff": tr_off, "padField": tr8[2] if len(tr8) == 8 else -1,
                     "sealedOK": used is not None, "usedSign": {True: "true", False: "false", None: "none"}[used],
                     "vtAt": (24 + pt.find(refdc.VT_SIG)) if refdc.VT_SIG in pt else -1,
                     "trailer_type_level": [tr8[0], tr8[1]] if len(tr8) == 8 else [], "ctx": struct.unpack("<H", pdu[20:22])[0],
                     "opnum": struct.unpack("<H", pdu[22:24])[0], "alloc_hint": struct.unpack("<I", pdu[16:20])[0]}
+        self.all_obs.append((dict(self.obs), pdu, pt))
         # ---- reply: stub || pad, sealed
         a = self.auth or {"type": 9, "level": 6, "ctx": 0}
         rbody = self.reply_stub + bytes((0xA5 + 7 * i) & 0xFF for i in range(self.reply_pad))  # pad octets are arbitrary
         sl = self.seal.sig_len
         hdr = refdc.pdu_header(refdc.PT_RESPONSE, fl, 16 + 8 + len(rbody) + 8 + sl, sl, h["call_id"]) + struct.pack("<IHBB", len(rbody), 0, 0, 0)
         rtr8 = struct.pack("<BBBBI", a["type"], a["level"], self.reply_pad, 0, a["ctx"])
-        rct, rsig = provider.server_seal(self.seal, 0, hdr, rbody, rtr8, bool(used))
+        rct, rsig = provider.server_seal(self.seal, seq, hdr, rbody, rtr8, bool(used))
         return hdr + rct + rtr8 + rsig
 
 
@@ -160,6 +165,49 @@ def one_request(stub: bytes, vt: bool, sig_len: int, sign: bool, flavour: str, r
     return obs, resp, log
 
 
+def request_sequence(stubs: list[bytes], vts: list[bool], sig_len: int, sign: bool) -> list[dict]:
+    """Several sealed requests over ONE connection / client object (per-request state must not leak)."""
+    from dpapi_ng._rpc import SyncRpcClient
+    from dpapi_ng._rpc._auth import AuthenticationProvider
+
+    log: list = []
+    seal = provider.SealKey(sig_len=sig_len)
+    srv = FramingServer(seal, sign, b"\x00" * 16, 0)
+
+    def factory() -> provider.ScriptedContext:
+        c = provider.ScriptedContext([ctok(1)], complete_after=1, sig_len=sig_len, log=log)
+        c.seal = seal
+        return c
+
+    with provider.installed(factory):
+        auth = AuthenticationProvider("u", "p", "dc01", "negotiate")
+    out = []
+    try:
+        with taps.time_limit(30):
+            c = SyncRpcClient(Sock(srv), auth)  # type: ignore
+            c.bind(contexts=_isd_contexts())
+            for stub, vt in zip(stubs, vts):
+                c.request(0, 0, stub, verification_trailer=_vt() if vt else None)
+    except MachineryError:
+        raise
+    except (Exception, taps.Hang):  # noqa
+        pass
+    wraps = [e for e in log if e["ev"] == "wrap"]
+    for k, (obs, wire, plain) in enumerate(srv.all_obs):
+        if k >= len(wraps):
+            break
+        w, stub, vt = wraps[k], stubs[k], vts[k]
+        obs["wrapModes"] = [MODES.get(x, str(x)) for x in w["types"]]
+        obs["wrapLens"] = w["lens"]
+        obs["bodyEq"] = (w["data"][1] or b"") == plain
+        obs["hdrEq"] = (w["data"][0] or b"") == wire[:24]
+        obs["trEq"] = (w["data"][2] or b"") == wire[obs["trailerOff"] : obs["trailerOff"] + 8]
+        obs["stubEq"] = plain[: len(stub)] == stub
+        obs["padsZero"] = True
+        out.append({"kind": "request", "stub": len(stub), "vt": VT_LEN if vt else 0, "sig": sig_len, "sign": sign, "fl": f"sync-seq{k + 1}", "obs": obs})
+    return out
+
+
 def run(ctx: Ctx) -> int:
     global _LOOP
     _LOOP = asyncio.new_event_loop()
@@ -187,6 +235,15 @@ def run(ctx: Ctx) -> int:
                         obs, _, _ = one_request(stub, vt, sig, sign, fl)
                         rows.append({"id": len(rows), "kind": "request", "stub": sl, "vt": VT_LEN if vt else 0, "sig": sig, "sign": sign, "fl": fl, "obs": obs})
                     ctx.distinct(("req", sl, vt, sig, sign))
+    # several requests of different lengths over one connection (per-request framing state must not be reused)
+    for k in range(ctx.pick(48, 400)):
+        n = rng.randrange(2, 5)
+        stubs = [rng.randbytes(rng.randrange(0, 120)) for _ in range(n)]
+        vts = [rng.random() < 0.6 for _ in range(n)]
+        for row in request_sequence(stubs, vts, (16, 28, 60, 76)[k % 4], k % 3 != 0):
+            row["id"] = len(rows)
+            rows.append(row)
+        ctx.distinct(("seq", k))
     # reply path: the reference encoder renders GetKey replies of every length residue, any declared pad
     dc = refdc.DC()
     rkid = uuid.UUID(int=7)
